@@ -100,7 +100,7 @@ def generate(rng, tier, idx):
             if r2 < 0.25:
                 ops.append({"op": "im_inject_collision", "path": path, "version": pick(rng, ["1.0", "1.1", "1.2", "0.3", "1.3"]),
                             "where": pick(rng, ["same-cell", "other-arch", "other-variant"]), "pick": rng.randint(0, 20),
-                            "same_path": rng.random() < 0.35})
+                            "same_path": rng.random() < 0.35, "raw": pick(rng, [None, None, "drop-format", "str-disc", "drop-unified"])})
             elif r2 < 0.45:
                 # the node restarts on an OLDER-format copy of its own state; the identity rule applies to the
                 # upgraded live object from then on
